@@ -47,18 +47,27 @@ def same(a, b, rel=REL, abs_=0.0):
 # part 1: trajectory histories
 # ------------------------------------------------------------------------------------------
 
+_SRC = {"new": 0, "reader": 1, "top": 2}
+
+
+def _txt(k, e, div):
+    """decimal text of k * 10^-e / div (div > 1: 17 significant digits, not on the text lattice)"""
+    return dec(k, e) if div == 1 else repr(val(k, e) / div)
+
+
 def _frame_cmd(rec, fr):
     u = rec["units"]
+    d = fr.get("div", 1)
     parts = ["frame", str(fr["step"]), dec(fr.get("time", 0), 3), fr["bc"]]
     for r in range(3):
         for c in range(3):
-            parts.append(dec(fr["box"][r][c], u["ebox"]))
+            parts.append(_txt(fr["box"][r][c], u["ebox"], d))
     for i in range(rec["n"]):
-        parts += [dec(x, u["epos"]) for x in fr["pos"][i]]
+        parts += [_txt(x, u["epos"], d) for x in fr["pos"][i]]
         if rec["hv"]:
-            parts += [dec(x, u["evel"]) for x in fr["vel"][i]]
+            parts += [_txt(x, u["evel"], d) for x in fr["vel"][i]]
         if rec["hf"]:
-            parts += [dec(x, u["ef"]) for x in fr["f"][i]]
+            parts += [_txt(x, u["ef"], d) for x in fr["f"][i]]
     return " ".join(parts)
 
 
@@ -86,7 +95,7 @@ def _history_cmds(rec, path):
             cmds.append("wclose")
         elif a == "ropen":
             cmds.append("rtop %d" % op["rn"])
-            cmds.append("ropen %s %d" % (path, 1 if op.get("reuse") else 0))
+            cmds.append("ropen %s %d" % (path, _SRC[op.get("src", "new")]))
         elif a == "rfirst":
             cmds.append("rfirst")
         elif a == "rnext":
@@ -97,7 +106,7 @@ def _history_cmds(rec, path):
         elif a == "rclose":
             cmds.append("rclose")
         elif a == "readtop":
-            cmds.append("readtop " + path)
+            cmds.append("readtop %s %d" % (path, _SRC[op.get("src", "new")]))
         else:
             raise vlib.InfraError("unknown action in TLC history: %s" % a)
         where.append(len(cmds) - 1)
@@ -115,6 +124,20 @@ def _res(lines):
 def _cmp_frame(fmt, exp, units, obs):
     """compare an observed topology dump with the stored projection; returns list of (what, text)"""
     bad = []
+    div = exp.get("div", 1)
+    sig = units.get("sig", 0)
+
+    def ok(o, k, e, extra_abs=0.0, efix=0):
+        ex = val(k, e) / div if div > 1 else val(k, e)
+        if div == 1:
+            return same(o, ex, REL if extra_abs == 0.0 else 1e-12, extra_abs), ex
+        # not on the text lattice: equal within the printed precision = half a unit of the last digit
+        if efix > 0:
+            return same(o, ex, 1e-12, 0.5000001 * 10.0 ** (-efix)), ex
+        if sig > 0:
+            return same(o, ex, 0.51 * 10.0 ** (1 - sig), extra_abs), ex
+        return same(o, ex, 1e-12, 0.5000001 * 10.0 ** (-e) + extra_abs), ex
+
     if obs["n"] != exp["n"]:
         bad.append(("beadcount", "bead count %s expected %s" % (obs["n"], exp["n"])))
         return bad
@@ -128,37 +151,35 @@ def _cmp_frame(fmt, exp, units, obs):
             for c in range(3):
                 if exp["boxmode"] == "diag" and r != c:
                     continue
-                e = val(exp["box"][r][c], units["ebox"])
-                o = ob[3 * r + c]
-                if not same(o, e):
+                good, e = ok(ob[3 * r + c], exp["box"][r][c], units["ebox"], 0.0, units.get("ebfix", 0))
+                if not good:
                     bad.append(("box:diag" if r == c else "box:offdiag",
-                                "box(%d,%d) = %r expected %r" % (r, c, o, e)))
+                                "box(%d,%d) = %r expected %r" % (r, c, ob[3 * r + c], e)))
     for i in range(exp["n"]):
         b = obs["beads"][i]
         if not b.get("haspos"):
             bad.append(("pos", "bead %d has no position" % i))
             continue
         for c in range(3):
-            e = val(exp["pos"][i][c], units["epos"])
-            if not same(b["pos"][c], e):
+            good, e = ok(b["pos"][c], exp["pos"][i][c], units["epos"])
+            if not good:
                 bad.append(("pos", "bead %d pos[%d] = %r expected %r" % (i, c, b["pos"][c], e)))
         if exp["hasvel"]:
             if not b.get("hasvel"):
                 bad.append(("vel", "bead %d: velocity written but not read back" % i))
             else:
                 for c in range(3):
-                    e = val(exp["vel"][i][c], units["evel"])
-                    if not same(b["vel"][c], e):
+                    good, e = ok(b["vel"][c], exp["vel"][i][c], units["evel"])
+                    if not good:
                         bad.append(("vel", "bead %d vel[%d] = %r expected %r" % (i, c, b["vel"][c], e)))
         if exp["hasf"]:
             if not b.get("hasf"):
                 bad.append(("force", "bead %d: force written but not read back" % i))
             else:
                 for c in range(3):
-                    e = val(exp["f"][i][c], units["ef"])
                     # dump prints kcal/mol/A with 6 decimals: half a unit of the last digit, in kJ/mol/nm
-                    tol = 0.0 if exp["fexact"] else 2.2e-5
-                    if not same(b["f"][c], e, 1e-12 if not exp["fexact"] else REL, tol):
+                    good, e = ok(b["f"][c], exp["f"][i][c], units["ef"], 0.0 if exp["fexact"] else 2.2e-5)
+                    if not good:
                         bad.append(("force", "bead %d f[%d] = %r expected %r" % (i, c, b["f"][c], e)))
     return bad
 
@@ -270,7 +291,7 @@ def replay_histories(ctx, exe, recs, sdir, tag, checked=False):
             if a == "wopen":
                 wre = bool(op.get("reuse"))
                 fmt = fmt0 + (":reused-object" if wre else "")
-            elif a == "ropen":
+            elif a in ("ropen", "readtop"):
                 fmt = fmt0 + (":reused-object" if (op.get("reuse") or wre) else "")
             if obs is None:
                 raise vlib.InfraError("no result line for %s" % items[i][1][where[j]])
@@ -387,7 +408,13 @@ def replay_tables(ctx, exe, recs, sdir):
                 f.write("\n".join(lines) + "\n")
             cmds = ["tload " + path]
         elif k == "table":
-            parts = ["tsave", path, "1" if inp["hasyerr"] else "0", "hello" if inp["comment"] else "-", str(inp["n"])]
+            cm = inp["comment"]
+            if not cm["lines"]:
+                ctext = "-"
+            else:   # %XX escapes for the driver: blank, real newline; the escape stays the two characters \n
+                ctext = {"newline": "%0A", "escape": "\\n", "none": ""}[cm["sep"]].join(
+                    ln.replace(" ", "%20") for ln in cm["lines"])
+            parts = ["tsave", path, "1" if inp["hasyerr"] else "0", ctext, str(inp["n"])]
             for j in range(inp["n"]):
                 parts += [_num(inp["x"][j]), _num(inp["y"][j]), _num(inp["yerr"][j]), inp["flags"][j]]
             cmds = [" ".join(parts), "tload " + path]
@@ -428,11 +455,15 @@ def replay_tables(ctx, exe, recs, sdir):
             ctx.violation(name + ":write:exception", "writing threw: " + w["exc"], r)
             continue
         if "exc" in rd:
-            ctx.violation(name + ":read:exception", "reading back threw: " + rd["exc"], r)
+            csep = r["inp"]["comment"]["sep"] if k == "table" else "none"
+            ctx.violation(name + ":read:exception" + (":comment-" + csep if csep != "none" else ""),
+                          "reading back threw: " + rd["exc"], r)
             continue
         if k in ("table", "ds", "tabletext"):
             if rd["n"] != exp["n"]:
-                ctx.violation(name + ":rows", "%d rows read, %d written" % (rd["n"], exp["n"]), r)
+                csep = r["inp"]["comment"]["sep"] if k == "table" else "none"
+                ctx.violation(name + (":rows:comment-" + csep if csep != "none" else ":rows"),
+                              "%d rows read, %d written" % (rd["n"], exp["n"]), r)
                 continue
             for col in ("x", "y"):
                 for j in range(exp["n"]):
@@ -809,15 +840,36 @@ def run(ctx):
         res = vlib.tlc("trajio", "MCTrajReuse", cfg="MCTrajReuse.cfg", timeout=1200)
         vlib.tlc_must_hold(res, "TrajIO with object re-use")
         ctx.add_tlc("MCTrajReuse", res)
-        reuse = [r for r in res.records if sum(1 for o in r["h"] if o["a"] == "wopen") == 2]
+        # complete histories only (a one-session history is a prefix of two-session ones unless it is the
+        # mixed use ReadTopology -> trajectory on one object)
+        reuse = [r for r in res.records if sum(1 for o in r["h"] if o["a"] == "wopen") == 2 or
+                 any(o["a"] == "ropen" and o.get("src") == "top" for o in r["h"])]
+        n_tt = sum(1 for r in reuse if any(o["a"] == "ropen" and o.get("src") == "top" for o in r["h"]))
+        n_tm = sum(1 for r in reuse if any(o["a"] == "ropen" and o.get("src") == "top" and o["rn"] != r["n"] for o in r["h"]))
+        n_rt = sum(1 for r in reuse if any(o["a"] == "readtop" and o.get("src") == "reader" for o in r["h"]))
+        if min(n_tt, n_tm, n_rt) == 0:
+            raise vlib.InfraError("vacuous mixed-use configuration: top->traj %d (mismatch %d), traj->top %d" % (n_tt, n_tm, n_rt))
         n_r = sum(1 for r in reuse if any(o["a"] == "ropen" and o["reuse"] for o in r["h"]))
         n_e = sum(1 for r in reuse if any(o["a"] == "ropen" and o["reuse"] for o in r["h"]) and
                   any(o.get("err") for o in r["h"][:[k for k, o in enumerate(r["h"]) if o["a"] == "ropen"][-1]]))
         n_w = sum(1 for r in reuse if any(o["a"] == "wopen" and o["reuse"] for o in r["h"]))
         if min(n_r, n_e, n_w) == 0:
             raise vlib.InfraError("vacuous re-use configuration: reader %d, after error %d, writer %d" % (n_r, n_e, n_w))
-        ctx.extra["reuse_histories"] = {"total": len(reuse), "reader": n_r, "reader_after_error": n_e, "writer": n_w}
+        ctx.extra["reuse_histories"] = {"total": len(reuse), "reader": n_r, "reader_after_error": n_e, "writer": n_w,
+                                        "topology_then_trajectory": n_tt, "of_these_mismatch": n_tm,
+                                        "trajectory_then_topology": n_rt}
         replay_histories(ctx, exe, reuse, sdir, "u")
+        # tiny magnitudes with a full mantissa in every column (numbers at the small edge of the field)
+        res = vlib.tlc("trajio", "MCTrajTiny", cfg="MCTrajTiny.cfg", timeout=1200)
+        vlib.tlc_must_hold(res, "TrajIO tiny payloads")
+        ctx.add_tlc("MCTrajTiny", res)
+        tiny = [r for r in res.records if _variant(r) == "read" and
+                sum(1 for o in r["h"] if o["a"] == "rnext" and not o["ret"]) >= 1]
+        if not tiny or not all(o["fr"]["div"] == 3 for r in tiny for o in r["h"] if o["a"] == "wwrite"):
+            raise vlib.InfraError("no tiny-payload history")
+        if not any(sum(1 for o in r["h"] if o["a"] == "wwrite") == 3 for r in tiny if r["fmt"] == "dlph"):
+            raise vlib.InfraError("no 3-frame dlph history with tiny payloads")
+        replay_histories(ctx, exe, tiny, sdir, "y")
         # two reader objects open at the same time, calls interleaved in every order
         res = vlib.tlc("trajio", "MCTwoReaders", cfg="MCTwoReaders.cfg", timeout=1200)
         vlib.tlc_must_hold(res, "TwoReaders independence")
